@@ -41,6 +41,7 @@ import os
 import random
 import sys
 import time
+import unittest
 
 import testtools
 from testtools import testcase as _tc
@@ -77,7 +78,8 @@ class CustomFail(AssertionError):
     pass
 
 
-CUSTOM = {"CustomErr": CustomErr, "CustomErrSub": CustomErrSub, "CustomFail": CustomFail}
+CUSTOM = {"CustomErr": CustomErr, "CustomErrSub": CustomErrSub, "CustomFail": CustomFail,
+          "SkipTest": unittest.SkipTest, "SkipSub": SkipSub}
 
 # kind -> category of the exception it raises (what its type "is")
 CATEGORY = {
@@ -315,6 +317,24 @@ def phase_handlers():
                     yield scn_of({s1: k1, s2: k2}, hs)
 
 
+# the documented way to customise skip reporting: a user handler for the skip class (or a subclass) in front of the stock ones
+SKIP_HANDLER_CONFIGS = [
+    [{"cls": "SkipTest", "where": "front", "reports": "addSkip"}],
+    [{"cls": "SkipSub", "where": "front", "reports": "addSkip"}],
+    [{"cls": "SkipSub", "where": "front", "reports": "addSkip"}, {"cls": "SkipTest", "where": "front", "reports": "addSkip"}],
+]
+
+
+def phase_skip_handlers():
+    for hs in SKIP_HANDLER_CONFIGS:
+        for kind in ("skip", "skipsub", "fail", "error"):
+            for st in STAGES:
+                yield scn_of({st: kind}, hs)
+        for k1, k2 in itertools.product(("fail", "error", "customfail"), ("skip", "skipsub", "skipraise")):
+            for s1, s2 in (("test", "tearDown"), ("setUp", "cleanup0"), ("test", "cleanup0"), ("tearDown", "cleanup1")):
+                yield scn_of({s1: k1, s2: k2}, hs)
+
+
 def phase_forced():
     kinds = ["ok", "fail", "error", "skip", "xfail", "uxs", "kbd", "skipsub"]
     for pre in ("mismatch", "force"):
@@ -360,7 +380,7 @@ def phase_random(count=4000):
         yield scn_of(assign, hs)
 
 
-PHASES = [("singles", phase_singles), ("forced", phase_forced), ("exhaustive", phase_exhaustive),
+PHASES = [("singles", phase_singles), ("forced", phase_forced), ("skip_handlers", phase_skip_handlers), ("exhaustive", phase_exhaustive),
           ("handlers", phase_handlers), ("pairs", phase_pairs), ("random", phase_random)]
 
 
